@@ -991,6 +991,23 @@ theorem limits_not_switched_off (pre : Predef) (env : Env V) (n : Node J V) (hwf
     rw [Nat.zero_add] at h3
     exact absurd h3 this
 
+/-- **fitting_limits_layout.**  The fitting class for a value outside the current dynamic limits of a parameter whose class
+layout makes the automatic check apply, every programmer's hook raising no objection: RangeError — wherever in the
+hierarchy the limit parameters were introduced — and nothing else happens. -/
+theorem fitting_limits_layout (pre : Predef) (env : Env V) (n : Node J V) (hwf : Node.WF pre n) (spec : Spec) (j : J)
+    (m a : String) (ht : target "target" spec = some (m, a)) (mod : Module J V) (p : Param J V)
+    (hex : ExportedParam pre n m a mod p) (hro : p.readonly = false) (hc : p.constant = none) (v w : V)
+    (hacc : p.dt.accept j (some p.entry.value) = .ok v) (hord : p.isLimitsPair = false) (hrev : p.dt.revalidate v = .ok w)
+    (ls : List Layer) (hchk : p.checks = chainOf ls 0) (hauto : AutoApplies ls none)
+    (hpass : ∀ i, i < ls.length → ownAt ls i = true → env.chk mod.name p.attr i v = .pass)
+    (hlim : ¬ LimitsOK env mod p.attr v) :
+    handleChange pre env n spec j = ⟨.error .rangeError, [], [], n⟩ := by
+  unfold handleChange; rw [ht]; simp only
+  rw [lookupParam_of_exported pre n hwf m a mod p hex]; simp only
+  unfold admitChange
+  have hrun := chain_refuses_range env mod p.attr v hlim ls 0 hauto (fun i hi ho => by rw [Nat.zero_add]; exact hpass i hi ho)
+  simp [hro, hc, hacc, hord, hrev, hchk, hrun, refuse, mkErr]
+
 end layout
 
 /-! ### the layout clause along histories -/
@@ -1171,5 +1188,12 @@ theorem wf_of_wfB (pre : Predef) (n : Node J V) (h : wfB pre n = true) : Node.WF
 open Example in
 /-- non-vacuity: the example node passes the test (and so does the one with a class layout) -/
 example : wfB pre node = true ∧ wfB pre LayoutExample.nodeL = true := by decide +kernel
+
+open LayoutExample Example in
+/-- `fitting_limits_layout` on the concrete node (60 > target_max = 50; the inherited hook passes 60) -/
+example : handleChange pre env nodeL (.full "m" "target") 60 = ⟨.error .rangeError, [], [], nodeL⟩ :=
+  fitting_limits_layout pre env nodeL wfL (.full "m" "target") 60 "m" "target" rfl mL targetL
+    ⟨by simp [nodeL], rfl, rfl, by simp [mL], by decide +kernel⟩ rfl rfl 60 60 rfl rfl rfl ls rfl (by decide)
+    (fun i _ _ => by simp [env]) (by decide +kernel)
 
 end Frappy.Props.C04
